@@ -33,6 +33,17 @@ impl Driven for D {
          _ => panic!("verif harness: unknown relation {}", rel),
       }
    }
+   fn clear(&mut self, rel: &str) {
+      match rel {
+         "u" => { self.0.u = Default::default(); },
+         "limit" => { self.0.limit = Default::default(); },
+         "reach" => { self.0.reach = Default::default(); },
+         "bucket" => { self.0.bucket = Default::default(); },
+         "reach2" => { self.0.reach2 = Default::default(); },
+         "bucket2" => { self.0.bucket2 = Default::default(); },
+         _ => panic!("verif harness: unknown relation {}", rel),
+      }
+   }
    fn run(&mut self) { self.0.run(); }
    fn run_timeout(&mut self, nanos: u64) -> Option<bool> { Some(self.0.run_timeout(std::time::Duration::from_nanos(nanos))) }
    fn dump(&self) -> Value {
